@@ -284,4 +284,131 @@ theorem sqrtMod_none (B n p : Nat) (hp : p.Prime) (h : sqrtMod B n p = some none
         simp only [ZMod.natCast_mod, Nat.cast_pow, Nat.cast_one]
         exact hE
 
+theorem tzAux_dvd : ∀ (f n : Nat), 2 ^ tzAux f n ∣ n := by
+  intro f
+  induction f with
+  | zero => intro n; simp [tzAux]
+  | succ f ih =>
+    intro n
+    unfold tzAux
+    by_cases h : n % 2 = 1
+    · rw [if_pos h]; simp
+    · rw [if_neg h]
+      obtain ⟨c, hc⟩ := ih (n / 2)
+      refine ⟨c, ?_⟩
+      have h2 : n = 2 * (n / 2) := by omega
+      generalize tzAux f (n / 2) = t at *
+      rw [Nat.pow_add]
+      calc n = 2 * (n / 2) := h2
+        _ = 2 * (2 ^ t * c) := by rw [← hc]
+        _ = 2 ^ 1 * 2 ^ t * c := by ring
+
+theorem tz64_lt (n : Nat) (h0 : n ≠ 0) (hn : n < 2 ^ 24) : tz64 n < 24 := by
+  unfold tz64
+  rw [if_neg h0]
+  by_contra hge
+  have h1 := Nat.le_of_dvd (by omega) (tzAux_dvd 64 n)
+  have : (2:Nat) ^ 24 ≤ 2 ^ tzAux 64 n := Nat.pow_le_pow_right (by decide) (by omega)
+  omega
+
+theorem oddPart_some : ∀ (f q : Nat), 0 < q → q < f → ∃ r, oddPart f q = some r := by
+  intro f
+  induction f with
+  | zero => intro q _ h; omega
+  | succ f ih =>
+    intro q h0 hf
+    unfold oddPart
+    by_cases he : q % 2 = 0
+    · rw [if_pos he]; exact ih _ (by omega) (by omega)
+    · rw [if_neg he]; exact ⟨_, rfl⟩
+
+/-- the loop finds a root when some iteration `k0 < p` succeeds and the products fit -/
+theorem tsLoop_total (B n p q1 k0 : Nat) (hq1 : q1 ≠ 0) (hp : 2 < p) (hn : n < p)
+    (hB : (p - 1) * (p - 1) < B) (hk0p : k0 < p) (hok : tsOk n p q1 k0) :
+    ∀ (f k : Nat), k ≤ k0 → k0 < k + f → ∃ res, tsLoop B n p q1 f k = some res := by
+  have hp0 : 0 < p := by omega
+  have hlt : ∀ a b, a < p → b < p → a * b < B := by
+    intro a b ha hb
+    calc a * b ≤ (p - 1) * (p - 1) := Nat.mul_le_mul (by omega) (by omega)
+      _ < B := hB
+  intro f
+  induction f with
+  | zero => intro k h1 h2; omega
+  | succ f ih =>
+    intro k hk hkf
+    have hkp : k < p := by omega
+    unfold tsLoop
+    rw [mulmod_eq hp0 (hlt _ _ hn hkp)]
+    simp only []
+    rw [mulmod_eq hp0 (hlt _ _ (Nat.mod_lt _ hp0) hkp)]
+    simp only []
+    rw [powMod_eq hp0 hB, if_neg hq1]
+    simp only []
+    rw [mulmod_eq hp0 (hlt _ _ (Nat.mod_lt _ hp0) (Nat.mod_lt _ hp0))]
+    simp only []
+    by_cases hs : (n * k % p * k % p) ^ q1 % p * ((n * k % p * k % p) ^ q1 % p) % p = n * k % p * k % p
+    · rw [if_pos hs, if_neg (by omega), powMod_eq hp0 hB]
+      simp only []
+      rw [mulmod_eq hp0 (hlt _ _ (Nat.mod_lt _ hp0) (by
+        split_ifs
+        · omega
+        · exact Nat.mod_lt _ hp0))]
+      exact ⟨_, rfl⟩
+    · rw [if_neg hs]
+      have hne : k ≠ k0 := by
+        rintro rfl
+        exact hs hok
+      exact ih (k + 1) (by omega) (by omega)
+
+theorem sqrtMod_no_panic (B n p : Nat) (hp : p.Prime) (hB : (p - 1) * (p - 1) < B)
+    (hsmall : p % 4 = 3 ∨ p < 2 ^ 24) : ∃ res, sqrtMod B n p = some res := by
+  have : Fact p.Prime := ⟨hp⟩
+  have hp0 : 0 < p := hp.pos
+  unfold sqrtMod
+  rw [if_neg (by omega)]
+  simp only []
+  by_cases hn0 : n % p = 0
+  · rw [if_pos hn0]; exact ⟨_, rfl⟩
+  rw [if_neg hn0]
+  by_cases hp2 : p = 2
+  · rw [if_pos hp2]; exact ⟨_, rfl⟩
+  rw [if_neg hp2]
+  have hp3 : 2 < p := by have := hp.two_le; omega
+  have hnp : n % p < p := Nat.mod_lt _ hp0
+  by_cases h34 : p % 4 = 3
+  · rw [if_pos h34, powMod_eq hp0 hB]
+    simp only []
+    rw [mulmod_eq hp0 (by
+      have : (n % p) ^ (p / 4 + 1) % p < p := Nat.mod_lt _ hp0
+      rw [if_neg (by omega)]
+      calc _ ≤ (p - 1) * (p - 1) := Nat.mul_le_mul (by omega) (by omega)
+        _ < B := hB)]
+    exact ⟨_, rfl⟩
+  · rw [if_neg h34, powMod_eq hp0 hB, if_neg (by omega)]
+    simp only []
+    have hp24 : p < 2 ^ 24 := by
+      rcases hsmall with h | h
+      · exact absurd h h34
+      · exact h
+    by_cases he : (n % p) ^ (p / 2) % p = 1
+    · rw [if_neg (by simpa using he)]
+      have hW : W = 2 ^ 64 := by decide
+      have hpW : p % W = p := Nat.mod_eq_of_lt (by rw [hW]; omega)
+      rw [hpW, if_neg (by omega), if_neg (by have := tz64_lt (p - 1) (by omega) (by omega); omega)]
+      obtain ⟨q, hq⟩ := oddPart_some (p + 1) (p / 2) (by omega) (by omega)
+      rw [hq]
+      simp only []
+      -- Euler: n is a square, so some k0 < p succeeds
+      have hN : ((n % p : Nat) : ZMod p) ≠ 0 := cast_ne_zero_of_mod (by rwa [Nat.mod_mod])
+      have hsq : IsSquare ((n % p : Nat) : ZMod p) := by
+        rw [ZMod.euler_criterion p hN]
+        have : (((n % p) ^ (p / 2) % p : Nat) : ZMod p) = ((1 : Nat) : ZMod p) := by rw [he]
+        rw [ZMod.natCast_mod] at this
+        push_cast at this
+        exact this
+      obtain ⟨k0, hk1, hk2, hk3⟩ := ts_exists (n % p) (q / 2 + 1) (by rwa [Nat.mod_mod]) hsq
+      exact tsLoop_total B (n % p) p (q / 2 + 1) k0 (by omega) hp3 hnp hB hk2 hk3 tsIters 1 hk1
+        (by unfold tsIters; omega)
+    · rw [if_pos (by simpa using he)]; exact ⟨_, rfl⟩
+
 end Ymq.Arith
